@@ -418,7 +418,19 @@ impl Driver for SideEffects {
                         merged_class = true;
                     }
                     let entry = c.t.bool();
-                    let ops = vec![Operator::I32Const { value: 7 + uniq as i32 }, Operator::Drop];
+                    let mut ops = vec![Operator::I32Const { value: 7 + uniq as i32 }, Operator::Drop];
+                    // probe bodies that use function, global and memory IDs (they are re-indexed
+                    // on a separate code path from instruction-level probes)
+                    let ns = c.t.below(3);
+                    for s in gen_stmts(&w, &all, ns, c, None) {
+                        if matches!(s, Stmt::RefFunc(_)) {
+                            continue;
+                        }
+                        ops.extend(stmt_ops(&s, &w));
+                    }
+                    if ops.len() > 2 {
+                        c.class("func_probe_body_with_references");
+                    }
                     func_level.insert(fid);
                     log.push(format!("[{}] func_{} probe on func {}", k, if entry { "entry" } else { "exit" }, fid));
                     items.push(Tagged { tag: tag.clone(), item: Item::FuncProbe { slot: fid, mode: if entry { "Entry" } else { "Exit" }, ops: dbg_ops(&ops) } });
